@@ -55,6 +55,12 @@ def _validate(vtype, val, name):
         itype = vtype.__args__[0]
         if itype != func_xltypes.XlArray:
             val = flatten(val)
+            # Items that cannot be converted are skipped, but errors are
+            # not: they propagate, the first one winning.
+            if getattr(itype, '__origin__', None) != typing.Union:
+                for item in val:
+                    if isinstance(item, xlerrors.ExcelError):
+                        raise item
         return tuple(filter(
             lambda x: x is not None,
             [_safe_validate(itype, item, name) for item in val]
